@@ -419,6 +419,16 @@ func (g *Grammar) Derive(c Chooser, depth, maxLen int) ([]int, bool) {
 			pi = best
 		} else {
 			pi = prods[c.Intn(len(prods))]
+			// While the sentence is still short, mostly take the longest
+			// alternative: with a uniform choice recursive lists are
+			// geometrically short and deep parser stacks never occur.
+			if len(out) < maxLen/2 && c.Intn(8) > 0 {
+				for _, alt := range prods {
+					if len(g.Prods[alt].RHS) > len(g.Prods[pi].RHS) {
+						pi = alt
+					}
+				}
+			}
 		}
 		for _, s := range g.Prods[pi].RHS {
 			if s.T {
